@@ -20,7 +20,7 @@ From TLV Require Import Base.Shape Base.PyList Base.Tensor Base.BigSum Model.Bas
   Proofs.TenalgProofs Proofs.TenalgProofsKR Proofs.TenalgProofsEinsum Proofs.TenalgProofsInner
   Proofs.TenalgProofsOuter Proofs.TenalgProofsSample Proofs.TenalgProofsSort Proofs.TenalgProofsEinsumVec Proofs.TenalgProofsMulti Proofs.TenalgProofsEinsumInner
   Proofs.TenalgProofsEinsumMttkrp Proofs.TenalgProofsEinsumKR Proofs.TenalgProofsEinsumOuter Proofs.TenalgProofsMultiGen Proofs.TenalgProofsMultiGen2 Proofs.TenalgProofsMemory
-  Proofs.TenalgProofsTdotE Proofs.TenalgProofsTdotC Proofs.TenalgProofsEinsumMulti Proofs.TenalgProofsValidate Proofs.TenalgProofsTdotInner Proofs.TenalgProofsKRBcast.
+  Proofs.TenalgProofsTdotE Proofs.TenalgProofsTdotC Proofs.TenalgProofsEinsumMulti Proofs.TenalgProofsValidate Proofs.TenalgProofsTdotInner Proofs.TenalgProofsKRBcast Proofs.TenalgProofsNegMode.
 Import ListNotations.
 
 Definition ring_of {F} (Op : rops F) := ring_theory (r0 Op) (r1 Op) (radd Op) (rmul Op) (rsub Op) (ropp Op) (@eq F).
@@ -71,6 +71,56 @@ Corollary C02_mode_dot_backends_agree : forall (F : Type) (Op : rops F), ring_of
   mode_dot Op T M k tr = mode_dot_e Op T M k tr.
 Proof. exact @mode_dot_backends_agree. Qed.
 Print Assumptions C02_mode_dot_backends_agree.
+
+(* mode given as a Python int z, -N <= z < N (py_index N z = Some k: negative modes count from the end).
+   Core backend (mode_dot_z): the textbook product at the normalised mode k - FULL.
+   Einsum backend as it is (mode_dot_e_z): a matrix operand with a NEGATIVE mode yields a tensor of the tensor's own shape (the
+   new label is summed out) - REFUTED by a computed witness (known finding einsum_mode_dot_negative_mode, fix candidate
+   build/fix_candidates/C02_negative_modes.diff); what does hold (PARTIAL, restricted to z >= 0 or a vector operand): the two
+   backends agree. *)
+Theorem C02_mode_dot_core_any_mode : forall (F : Type) (Op : rops F) (T M : tensor F) (z : Z) (k : nat) (tr : bool) (a b : nat),
+  py_index (ndim T) z = Some k ->
+  wf T -> wf M -> 0 < prod (shape T) -> shape M = [a; b] ->
+  (if tr then a else b) = nth k (shape T) 0 -> 0 < (if tr then b else a) ->
+  exists R, mode_dot_z Op T M z tr = Ok R /\ wf R /\
+    shape R = set_nth k (if tr then b else a) (shape T) /\
+    forall idx, inb (shape R) idx ->
+      get (r0 Op) R idx =
+      bsum Op (nth k (shape T) 0) (fun i => rmul Op (mentry Op M tr (nth k idx 0) i) (get (r0 Op) T (set_nth k i idx))).
+Proof. exact @mode_dot_z_matrix_spec. Qed.
+Print Assumptions C02_mode_dot_core_any_mode.
+
+Theorem C02_mode_dot_core_vector_any_mode : forall (F : Type) (Op : rops F) (T v : tensor F) (z : Z) (k : nat) (tr : bool) (n : nat),
+  py_index (ndim T) z = Some k -> k < ndim T ->
+  wf T -> 0 < prod (shape T) -> shape v = [n] -> n = nth k (shape T) 0 ->
+  exists R, mode_dot_z Op T v z tr = Ok R /\ wf R /\ shape R = remove_nth k (shape T) /\
+    forall ridx, inb (shape R) ridx ->
+      get (r0 Op) R ridx = bsum Op n (fun i => rmul Op (get (r0 Op) v [i]) (get (r0 Op) T (insert_at k i ridx))).
+Proof. exact @mode_dot_z_vector_spec. Qed.
+Print Assumptions C02_mode_dot_core_vector_any_mode.
+
+Theorem C02_mode_dot_einsum_negative_mode_refuted :
+  exists (T M R1 R2 : tensor Z) (z : Z), (z < 0)%Z /\ wf T /\ wf M /\ py_index (ndim T) z = Some 1 /\ shape M = [1; 2] /\
+    mode_dot_z ZR T M z false = Ok R1 /\ mode_dot_e_z ZR T M z false = Ok R2 /\ R1 <> R2.
+Proof. exact mode_dot_einsum_negative_mode_refuted. Qed.
+Print Assumptions C02_mode_dot_einsum_negative_mode_refuted.
+
+Theorem C02_mode_dot_any_mode_backends_agree_partial : forall (F : Type) (Op : rops F), ring_of Op ->
+  forall (T M : tensor F) (z : Z) (k : nat) (tr : bool) (a b : nat),
+  py_index (ndim T) z = Some k -> (0 <= z)%Z -> k < ndim T ->
+  wf T -> wf M -> 0 < prod (shape T) -> shape M = [a; b] ->
+  (if tr then a else b) = nth k (shape T) 0 -> 0 < (if tr then b else a) ->
+  mode_dot_z Op T M z tr = mode_dot_e_z Op T M z tr.
+Proof. exact @mode_dot_z_backends_agree_nonneg. Qed.
+Print Assumptions C02_mode_dot_any_mode_backends_agree_partial.
+
+Theorem C02_mode_dot_vector_any_mode_backends_agree : forall (F : Type) (Op : rops F), ring_of Op ->
+  forall (T v : tensor F) (z : Z) (k : nat) (tr : bool) (n : nat),
+  py_index (ndim T) z = Some k -> k < ndim T ->
+  wf T -> 0 < prod (shape T) -> shape v = [n] -> n = nth k (shape T) 0 ->
+  mode_dot_z Op T v z tr = mode_dot_e_z Op T v z tr.
+Proof. exact @mode_dot_z_backends_agree_vector. Qed.
+Print Assumptions C02_mode_dot_vector_any_mode_backends_agree.
 
 (* KR[(i_1..i_n), r] = prod_k A_k[i_k, r] * w_r * mask[(i_1..i_n)], any number of matrices (also a single one), any skip;
    w_ok w R = the weights (if given) have exactly R entries, mask_ok mask n = the mask (if given) has exactly n entries (any
